@@ -20,14 +20,28 @@ APPLIES = PROPS
 COORDS = ("x1", "x2", "y1", "y2", "z1", "z2")
 
 
-def extra_configs(tier, add):
+def _tiny():
     from jumanji.environments import BinPack
     from jumanji.environments.packing.bin_pack import generator as G, reward as R
     # tiny non-cubic container and tiny EMS buffer: the buffer overflows (slot 0 is overwritten), many equal volumes (stable
     # sort), degenerate splits, sparse reward, raw integers, obs_num_ems < max_num_ems
-    add("tiny7x5x3-ems4-obs3", lambda: BinPack(generator=G.RandomGenerator(max_num_items=9, max_num_ems=4, split_num_same_items=3, container_dims=(7, 5, 3)),
-                                               obs_num_ems=3, normalize_dimensions=False, reward_fn=R.SparseReward()), 11)
+    return BinPack(generator=G.RandomGenerator(max_num_items=9, max_num_ems=4, split_num_same_items=3, container_dims=(7, 5, 3)),
+                   obs_num_ems=3, normalize_dimensions=False, reward_fn=R.SparseReward())
+
+
+def private_configs(tier):
+    """configurations analysed by this module only (BinPack's step costs ~25 s of tracing + compilation per jitted function, so the
+    quick tier keeps this boundary configuration out of the shared generic / mode / wrapper stages; the thorough tier adds it there)"""
+    if tier == "quick":
+        return [dict(env=NAME, label="tiny7x5x3-ems4-obs3", make=_tiny, steps=11, batch=6, time_limit=None, tags={})]
+    return []
+
+
+def extra_configs(tier, add):
+    from jumanji.environments import BinPack
+    from jumanji.environments.packing.bin_pack import generator as G, reward as R
     if tier != "quick":
+        add("tiny7x5x3-ems4-obs3", _tiny, 11)
         add("rand6-ems3", lambda: BinPack(generator=G.RandomGenerator(max_num_items=6, max_num_ems=3, split_num_same_items=2), obs_num_ems=3), 8)
         add("tiny7x5x3-ems8-obs4", lambda: BinPack(generator=G.RandomGenerator(max_num_items=9, max_num_ems=8, split_num_same_items=3, container_dims=(7, 5, 3)),
                                                    obs_num_ems=4, normalize_dimensions=False, reward_fn=R.SparseReward()), 11)
@@ -172,7 +186,7 @@ def analyze(kit):
         metas.append(("check", d, None, None, meta, s))
 
     vol_cases = []
-    for cfg in kit.configs():
+    for cfg in list(kit.configs()) + private_configs(kit.tier):
         env = kit.env(cfg)
         d = Dims(env)
         label = cfg["label"]
